@@ -88,18 +88,25 @@ def elf_scenarios(rng):
         {"type": elfgen.PT_LOAD, "flags": elfgen.PF_R, "vaddr": 0x500000, "data": bytes(range(1, 33))},
         {"type": elfgen.PT_LOAD, "flags": elfgen.PF_R | elfgen.PF_W, "vaddr": 0x600000, "data": bytes(range(65, 97)), "memsz": 64},
     ])
+    # the same with segments that fill their pages exactly (file size = memory size = a page multiple: no zero-fill tail)
+    elf_pg = elfgen.build(0x400000, [
+        {"type": elfgen.PT_LOAD, "flags": elfgen.PF_R | elfgen.PF_X, "vaddr": 0x400000, "data": bytes([0x90] * 0x1000)},
+        {"type": elfgen.PT_LOAD, "flags": elfgen.PF_R, "vaddr": 0x500000, "data": bytes((i % 251) + 1 for i in range(0x1000))},
+        {"type": elfgen.PT_LOAD, "flags": elfgen.PF_R | elfgen.PF_W, "vaddr": 0x600000, "data": bytes((i % 13) + 65 for i in range(0x1000))},
+    ])
     scs = []
     k = 0
     tmpls = ["store8", "store32", "store64", "store128", "sti16", "sti64", "add32", "not64", "xor16i", "push64", "call", "load64", "load128"]
-    for seg, base in (("text", 0x400000), ("ro", 0x500000), ("data", 0x600000)):
-        for t in tmpls:
-            b = mc.Builder(f"elf-{seg}-{k}", code_at=0x10000)
-            k += 1
-            b.guest(t, base + 8 + (8 if mc.TEMPLATES[t][1] == "push" else 0))
-            b.api(op="mem_write_bytes", addr=base + 3, data=[9, 9])
-            b.api(op="mem_read_bytes", addr=base + 3, len=2)
-            b.fetch(base + 1, mustrun=(seg == "text"))
-            scs.append(b.scenario(maxbytes=5000, elf=elf))
+    for tag, image, ts in (("", elf, tmpls), ("pg", elf_pg, ["store8", "store64", "sti16", "add32", "push64", "call", "load64"])):
+        for seg, base in (("text", 0x400000), ("ro", 0x500000), ("data", 0x600000)):
+            for t in ts:
+                b = mc.Builder(f"elf{tag}-{seg}-{k}", code_at=0x10000)
+                k += 1
+                b.guest(t, base + 8 + (8 if mc.TEMPLATES[t][1] == "push" else 0))
+                b.api(op="mem_write_bytes", addr=base + 3, data=[9, 9])
+                b.api(op="mem_read_bytes", addr=base + 3, len=2)
+                b.fetch(base + 1, mustrun=(seg == "text"))
+                scs.append(b.scenario(maxbytes=5000, elf=image))
     return scs
 
 
